@@ -89,6 +89,31 @@ type walker struct {
 	segs  []seg
 	depth int // nesting of range/with (inside, `.X` is not the root)
 	stack []string
+	// vars: template variables introduced by a plain `{{$x := pipeline}}` action; the conditions and
+	// ranged-over expressions are recorded with such a variable replaced by its definition, so that
+	// naming a sub-expression does not change the extracted table
+	vars map[string]string
+}
+
+var reVar = regexp.MustCompile(`\$[A-Za-z_][A-Za-z0-9_]*`)
+
+func (w *walker) subst(s string) string {
+	if len(w.vars) == 0 {
+		return s
+	}
+	for k := 0; k < 4; k++ {
+		t := reVar.ReplaceAllStringFunc(s, func(v string) string {
+			if d, ok := w.vars[v]; ok {
+				return d
+			}
+			return v
+		})
+		if t == s {
+			break
+		}
+		s = t
+	}
+	return s
 }
 
 func (w *walker) emit(text string, g []atom) {
@@ -133,7 +158,7 @@ func (w *walker) condAtom(p *parse.PipeNode, positive bool) atom {
 		}
 	}
 	// a condition that mentions an option field in any other way is outside what is read here
-	s := p.String()
+	s := w.subst(p.String())
 	for f := range w.opts {
 		if regexp.MustCompile(`\.` + f + `\b`).MatchString(s) {
 			fail("condition `" + s + "` uses option " + f + " in a form the extractor does not read")
@@ -162,7 +187,18 @@ func (w *walker) node(n parse.Node, g []atom) {
 		w.emit(string(x.Text), g)
 	case *parse.ActionNode:
 		if len(x.Pipe.Decl) > 0 {
-			return // variable assignment renders nothing
+			// variable assignment renders nothing
+			if len(x.Pipe.Decl) == 1 && !x.Pipe.IsAssign {
+				if w.vars == nil {
+					w.vars = map[string]string{}
+				}
+				d := w.subst(pipeExpr(x.Pipe))
+				if !strings.HasPrefix(d, "(") && strings.ContainsAny(d, " |") {
+					d = "(" + d + ")"
+				}
+				w.vars[x.Pipe.Decl[0].Ident[0]] = d
+			}
+			return
 		}
 		w.emit("«"+x.Pipe.String()+"»", g)
 	case *parse.CommentNode:
@@ -170,13 +206,13 @@ func (w *walker) node(n parse.Node, g []atom) {
 		w.list(x.List, with(g, w.condAtom(x.Pipe, true)))
 		w.list(x.ElseList, with(g, w.condAtom(x.Pipe, false)))
 	case *parse.RangeNode:
-		d := pipeExpr(x.Pipe)
+		d := w.subst(pipeExpr(x.Pipe))
 		w.depth++
 		w.list(x.List, with(g, atom{kind: "range", desc: d}))
 		w.depth--
 		w.list(x.ElseList, with(g, atom{kind: "data", desc: "empty (" + d + ")"}))
 	case *parse.WithNode:
-		d := pipeExpr(x.Pipe)
+		d := w.subst(pipeExpr(x.Pipe))
 		w.depth++
 		w.list(x.List, with(g, atom{kind: "data", desc: "with (" + d + ")"}))
 		w.depth--
